@@ -290,7 +290,7 @@ RULES = [
 
 
 from . import shared
-RULES = RULES + shared.bundle('C07', ['gate', 'restart', 'driver', 'values', 'stride', 'maxpd', 'norm', 'loops', 'eqvol', 'modes'], ['product', 'details', 'kernel'])
+RULES = RULES + shared.bundle('C07', ['gpu', 'gate', 'restart', 'driver', 'values', 'stride', 'maxpd', 'norm', 'loops', 'eqvol', 'modes'], ['product', 'details', 'kernel'])
 from .. import refs as _refs
 RULES = RULES + [_refs.ref_rule('C07')]
 
